@@ -172,6 +172,24 @@ def replay_registry(arg):
                     pin = (1.5, 2.5, 3.5)
                     if td.transform((op["s"], op["d"]), pin) is not pin:
                         mism.append(("registry-identity-not-unchanged", "X->X does not return its input unchanged", rep))
+                    # ... in every input form the method accepts (positional / keyword position, pose, matrix)
+                    from pyquaternion import Quaternion
+
+                    from perception_eval.common.transform import HomogeneousMatrix
+
+                    qin = Quaternion(axis=[0.0, 0.0, 1.0], radians=0.3)
+                    Min = HomogeneousMatrix(pin, qin, src=op["s"], dst=op["d"])
+                    forms = [("pose", lambda: td.transform((op["s"], op["d"]), pin, qin), lambda r: r[0] is pin and r[1] is qin),
+                             ("position=", lambda: td.transform((op["s"], op["d"]), position=pin), lambda r: r is pin),
+                             ("position=, rotation=", lambda: td.transform((op["s"], op["d"]), position=pin, rotation=qin), lambda r: r[0] is pin and r[1] is qin),
+                             ("matrix", lambda: td.transform((op["s"], op["d"]), Min), lambda r: r is Min),
+                             ("matrix=", lambda: td.transform((op["s"], op["d"]), matrix=Min), lambda r: r is Min)]
+                    for name_, call, ok in forms:
+                        try:
+                            if not ok(call()):
+                                mism.append(("registry-identity-not-unchanged", "X->X with input form `%s` does not return its input unchanged" % name_, rep))
+                        except Exception as ex:
+                            mism.append(("registry-identity-not-unchanged", "X->X with input form `%s` raised %r" % (name_, ex), rep))
     return n, mism
 
 
